@@ -410,10 +410,10 @@ class TraceLoader(SourceFileLoader):
     def exec_module(self, module: ModuleType) -> None:
         source_path = str(self.get_filename(module.__name__))
         tracers = self._tracers  # those active now: the same list for switching off and on again below
-        should_reenable_saved_state = []
         enforce_pickled_bookkeeping = False
         tracer = None
         bytecode_caching_allowed = True
+        to_disable = []
         for tracer in reversed(tracers):
             should_disable = False
             if tracer._should_instrument_file_impl(source_path):
@@ -425,9 +425,19 @@ class TraceLoader(SourceFileLoader):
                 )
             else:
                 should_disable = tracer._is_tracing_enabled
-            should_reenable_saved_state.append(should_disable)
             if should_disable:
-                tracer._disable_tracing()
+                to_disable.append(tracer)
+        # system trace functions wrap one another in the order the tracers were switched on, which is not
+        # the stack order when a tracer lower in the stack is switched on again in a nested context:
+        # take them off outermost first, and put them back (below) in exactly the reverse order
+        to_reenable: List["BaseTracer"] = []
+        while to_disable:
+            tracer = next(
+                (t for t in to_disable if t._is_outermost_sys_tracer()), to_disable[0]
+            )
+            to_disable.remove(tracer)
+            tracer._disable_tracing()
+            to_reenable.insert(0, tracer)
         enforce_pickled_bookkeeping = (
             enforce_pickled_bookkeeping and bytecode_caching_allowed
         )
@@ -438,7 +448,6 @@ class TraceLoader(SourceFileLoader):
             cache_path = self._pyccolo_cache_from_source(source_path)
             pickle_path = os.path.splitext(cache_path)[0] + ".pkl"
             tracer = tracers[-1]
-        should_reenable_saved_state.reverse()
         num_handled = 0
         was_in_exec_module, self._in_exec_module = self._in_exec_module, True
         try:
@@ -516,24 +525,20 @@ class TraceLoader(SourceFileLoader):
                         os.remove(tmp_path)
                     except OSError:
                         pass
-            for tracer, should_reenable in zip(
-                tracers, should_reenable_saved_state
-            ):
+            for tracer in tracers:
                 _emit_import_event(
                     tracer, TraceEvent.after_import.value, sys._getframe(), module=module
                 )
                 num_handled += 1
-                if should_reenable:
-                    tracer._enable_tracing()
+                # a tracer is switched on again once its own after_import handlers have run
+                while to_reenable and to_reenable[0] in tracers[:num_handled]:
+                    to_reenable.pop(0)._enable_tracing()
         finally:
             self._in_exec_module = was_in_exec_module
             # the module body (or its compilation) may raise: the tracers switched off above
             # must not stay off for the rest of their tracing context
-            for tracer, should_reenable in list(
-                zip(tracers, should_reenable_saved_state)
-            )[num_handled:]:
-                if should_reenable:
-                    tracer._enable_tracing()
+            while to_reenable:
+                to_reenable.pop(0)._enable_tracing()
 
 
 # this is based on the birdseye finder (which uses import hooks based on MacroPy's):
